@@ -26,11 +26,13 @@ ASSUMPTIONS = [
 BASES = "ACGT"
 
 
-def gen_case(draw, ploidy, nfiles):
-    nchrom = draw(st.integers(1, 2))
+def gen_case(draw, ploidy, nfiles, dense=False):
+    """dense: one chromosome, (almost) one block, an error event at most variants - the regime in which the permutation
+    dynamic program of the polyploid comparison has to keep many undominated entries"""
+    nchrom = 1 if dense else draw(st.integers(1, 2))
     chroms = []
     for ci in range(nchrom):
-        nvar = draw(st.integers(3, 14 if ploidy == 2 else (8 if ploidy == 3 else 6)))
+        nvar = draw(st.integers(2, 8)) if dense else draw(st.integers(3, 14 if ploidy == 2 else (8 if ploidy == 3 else 6)))
         pos = 0
         variants = []
         for _ in range(nvar):
@@ -56,19 +58,21 @@ def gen_case(draw, ploidy, nfiles):
     for fi in range(nfiles):
         enc = draw(st.sampled_from(["PS", "PS", "HP"]))
         calls = {}
-        nbreak = draw(st.sampled_from([0, 1, 2, 4]))
+        nbreak = draw(st.sampled_from([0, 0, 0, 1])) if dense else draw(st.sampled_from([0, 1, 2, 4]))
         for c in chroms:
             rows = []
             cur = draw(st.integers(1, 5))
             open_sets = [cur]
             orient = list(range(ploidy))
             for vi, v in enumerate(c["variants"]):
-                if draw(st.integers(0, 11)) == 0:
+                if not dense and draw(st.integers(0, 11)) == 0:
                     rows.append(None)  # record absent from this file
                     continue
                 al = list(base[c["name"]][vi])
                 if fi > 0 and not identical:
-                    r = draw(st.integers(0, 9))
+                    r = draw(st.integers(0, 3 if dense else 9))
+                    if dense and r == 2:
+                        r = 1
                     if r == 0:
                         # switch: from here on use another haplotype correspondence
                         orient = list(draw(st.permutations(list(range(ploidy)))))
@@ -87,7 +91,7 @@ def gen_case(draw, ploidy, nfiles):
                         open_sets.append(cur)
                     else:
                         cur = draw(st.sampled_from(open_sets))
-                phased = het and draw(st.integers(0, 9)) > 0
+                phased = het and (dense or draw(st.integers(0, 9)) > 0)
                 rows.append({"alleles": al, "set": cur if phased else None})
             calls[c["name"]] = rows
         files.append({"enc": enc, "calls": calls})
@@ -432,6 +436,22 @@ class ComparePart:
                 ctx.violation("compare:multiway", "%s: multiway counts %r, expected %r" % (cname, got, hist))
 
 
+class DensePart(ComparePart):
+    """ploidy 3-4, dense switch / flip events inside one block"""
+    name = "poly-dense"
+    ploidies = (3, 4, 4)
+    nfiles = 2
+    budget = {"quick": 9600, "thorough": 200000}
+
+    def strategy(self, tier):
+        part = self
+
+        @st.composite
+        def case(draw):
+            return gen_case(draw, draw(st.sampled_from(part.ploidies)), part.nfiles, dense=True)
+        return case()
+
+
 class TriplePart(ComparePart):
     name = "triple"
     ploidies = (2,)
@@ -439,4 +459,4 @@ class TriplePart(ComparePart):
     budget = {"quick": 2400, "thorough": 40000}
 
 
-PARTS = [ComparePart(), TriplePart()]
+PARTS = [ComparePart(), TriplePart(), DensePart()]
